@@ -591,12 +591,14 @@ def make_jail(env, troot):
     return scan_tree(troot)
 
 
-def run_jailed(env, troot, argv, timeout=10.0, cwd='/', streams=None):
+def run_jailed(env, troot, argv, timeout=10.0, cwd='/', streams=None, extra_env=None):
     """streams: {'stdout'|'stderr': 'full'|'epipe'|'closed'} - the stream is /dev/full (every write fails), a pipe without reader, or not
     open at all (the Rust runtime then opens /dev/null for it and aborts where that does not exist: not used inside the jail)"""
     env.runs += 1
     e = {'HOME': '/L/home', 'XDG_CONFIG_HOME': '/L/home/.config', 'LC_ALL': 'C.UTF-8', 'TZ': 'UTC',
          'NO_COLOR': '1', 'RUST_BACKTRACE': '0', 'PATH': '/L'}
+    if extra_env:
+        e.update(extra_env)
     cmd = ['/L/ld.so', '--library-path', '/L', '/L/fselect'] + list(argv)
     streams = streams or {}
 
